@@ -47,7 +47,9 @@ func Parse(input []byte) (msg ast.HSMSMessage, ok bool) {
 		}
 	}()
 
-	p := &parser{input: input}
+	// Limit the capacity to the length, so that a declared item length which
+	// exceeds the input cannot be satisfied from the backing array beyond it.
+	p := &parser{input: input[:len(input):len(input)]}
 	if ok := p.parseMessageLength(); !ok {
 		return p.msg, false
 	}
